@@ -175,6 +175,11 @@ func checkC16(c *Ctx) {
 			return strings.Contains(roleOf(l, v, "", 0), "NewNodeIterator(arg1")
 		})
 	}
+	if tow := l.Func("", "*nodeDB.traverseOrphansWithRootkeyCache"); tow != nil {
+		checkSharedByHash(c, "DOM-shared-by-hash", tow, func(v ssa.Value) bool {
+			return strings.Contains(roleOf(l, v, "", 0), ",arg1)#0")
+		})
+	}
 	checkLegacyRootResave(c)
 	checkLegacySyntheticKey(c)
 	// a rollback into the legacy range also removes what later commits re-saved in the new key-space
